@@ -31,13 +31,17 @@ rule("C13.k", "a full-grid series taken from the price data is brought to the as
               "each interval) - prices and limits alike", floor=3)
 
 
+rule("C13.m", "the mapping is extended to the minor grid (one row per fine step, with its share) wherever the asset has a coarser frequency - "
+              "the extension depends on that test alone, not on the class of the object - and before anything selects mapping rows by time step "
+              "(define_restr matches the steps of a take period): a take restriction built on the unextended frame sees the first fine step of "
+              "each coarse interval only, with weight 1", floor=4)
 rule("C13.l", "the average of a fine series over the fine steps of a coarse interval is weighted with the lengths of those steps "
               "(np.average(x[I], weights = dt[I]) with the full grid's dt and the same selector): a constant rate over the interval meets "
               "price / limit k for dt_k hours - the plain mean is that only when all fine steps are equally long (not on a daily grid over "
               "a daylight-saving switch, not on a monthly grid)", floor=3)
 
 
-@analysis("minorgrid", ["C01.g", "C13.e", "C13.k", "C13.l"])
+@analysis("minorgrid", ["C01.g", "C13.e", "C13.k", "C13.l", "C13.m"])
 def run(ctx):
     p = ctx.p
     n_sites = 0
@@ -196,3 +200,34 @@ def run(ctx):
                            "without weights" if w is None else "with weights %s that are not the full grid's dt under the same selector" % au.short(w, 40)),
                        node=x, key="average over the fine steps of a coarse interval is weighted with dt: %s" % au.short(operand.value, 30))
     ctx.require(n_l >= 3, "fewer than 3 averages over the fine steps of a coarse interval found", rules=["C13.l"])
+
+
+    # ================================================================= C13.m extension unconditional (w.r.t. the class) and before row selection
+    n_m = 0
+    for fn in sorted(p.all_functions(), key=lambda f: f.qualname):
+        if fn.parent is not None or fn.cls is None or not p.is_subclass(fn.cls, "Asset") or fn.name != "setup_optim_problem":
+            continue
+        ext = []
+        for lst, guards in au.stmt_lists(fn.body):
+            for st in lst:
+                if isinstance(st, (ast.Assign, ast.Expr)) and any(isinstance(x, ast.Call) and "extend_mapping_to_minor_grid" in (au.method_name(x) or "") for x in au.walk_own(st)):
+                    ext.append((st, guards))
+        restr = [st for st in au.walk_stmts(fn.body) if any(isinstance(x, ast.Call) and au.method_name(x) == "define_restr" for x in au.walk_own(st))]
+        for st, guards in ext:
+            n_m += 1
+            foreign = [g for g in guards if g[0] == "if" and "I_minor_in_major" not in au.U(g[1])]
+            late = [r for r in restr if r.lineno < st.lineno]
+            why = ""
+            if foreign:
+                why = "the extension is applied only under `%s`: an object of a sub-class (which inherits this set-up through super()) gets a frame " \
+                      "with one row per coarse interval" % au.short(foreign[0][1], 60)
+            if late:
+                why = (why + "; " if why else "") + "the extension comes after the take restrictions were built (%s): define_restr matched the steps of the " \
+                    "take period against the unextended frame - only the first fine step of each coarse interval counts, with weight 1, and the " \
+                    "volume is prorated by those steps alone (total dispatch 12.5 instead of 300)" % p.where(late[0])
+            ctx.ob("C13.m", fn, au.short(st, 70), not why, why, node=st)
+        if restr and not ext:
+            # the frame comes from the parent's set-up: that one must extend it for sub-classes too (checked at the parent)
+            n_m += 1
+            ctx.ob("C13.m", fn, "take restrictions on the frame of the parent's set-up", True, ok_detail="extension is the parent's job (checked there)", trivial=True)
+    ctx.require(n_m >= 4, "fewer than 4 extensions of a mapping to the minor grid found", rules=["C13.m"])
